@@ -93,9 +93,10 @@ Qed.
 
 Lemma Inv_step c lf ah s o : Inv lf s -> Inv lf (fst (step c lf ah s o)).
 Proof.
-  intros [I1 [I2 I3]]. destruct o as [i|u i q|u i n| | |dt]; simpl.
+  intros [I1 [I2 I3]]. destruct o as [i|u i q|u i n| | |dt|u|u]; simpl.
   - split; [apply aset_nodup; [apply String.eqb_eq|exact I1]|]. split; [exact I2|exact I3].
-  - destruct (negb (str_mem u (ups c))); simpl; [split; [exact I1|split; [exact I2|exact I3]]|].
+  - destruct (sget u (sums s)); simpl; [|split; [exact I1|split; [exact I2|exact I3]]].
+    destruct (String.eqb i "state"); simpl; [split; [exact I1|split; [exact I2|exact I3]]|].
     split; [exact I1|]. split; [apply aset_nodup; [apply key_eqb_spec|exact I2]|].
     intros Hlf. subst lf. intros u' i' q' lab' Hin. apply (aset_In key_eqb key_eqb_spec) in Hin.
     destruct Hin as [Hin|Hin]; [inversion Hin; reflexivity|eapply (I3 eq_refl); exact Hin].
@@ -109,6 +110,8 @@ Proof.
   - split; [exact I1|]. split; [apply filter_keys_nodup; exact I2|].
     intros Hlf u i q lab Hin. apply filter_In in Hin. eapply (I3 Hlf); apply Hin.
   - split; [exact I1|split; [exact I2|exact I3]].
+  - split; [exact I1|split; [exact I2|exact I3]].
+  - destruct (sget u (sums s)); simpl; split; [exact I1|split; [exact I2|exact I3]|exact I1|split; [exact I2|exact I3]].
 Qed.
 
 Lemma Inv_run c lf ah ops : forall s, Inv lf s -> Inv lf (run_state c lf ah s ops).
@@ -161,29 +164,46 @@ Proof.
   apply (In_alookup String.eqb String.eqb_eq) in E1; [|exact Hnd]. rewrite Hi in E1. inversion E1; subst. lia.
 Qed.
 
+Arguments orphan : simpl never.
+
+(* counted in-flight after the unknown-condition pass *)
+Lemma count_tu (orphan : string -> bool) gone u i (cs : list (string * fcst)) :
+  match sget u (filter (fun p : string * fcst => negb (orphan (fst p))) (drop_all gone cs)) with
+  | Some f => sget i (fst f) | None => None end
+  = if orphan u then None
+    else if str_mem i gone then None
+    else match sget u cs with Some f => sget i (fst f) | None => None end.
+Proof.
+  pose proof (alookup_filter String.eqb String.eqb_eq (fun x => negb (orphan x)) u (drop_all gone cs) (V:=fcst)) as HF.
+  cbv beta in HF. rewrite HF. destruct (orphan u); simpl; [reflexivity|]. apply count_drop_all.
+Qed.
+
 (* one step: an instance that is in the client cache, whose last heartbeat is at most 3 s old when a
-   timeout pass runs, keeps its cache entry, all its conditions and all its counted in-flight —
-   whatever the step is, except its own report / acquire *)
+   timeout pass runs, keeps its cache entry, and — for every upstream that is in the lister when an
+   unknown-condition pass runs — all its conditions and all its counted in-flight; whatever the step
+   is, except its own report / acquire *)
 Lemma live_kept_step c ah s o i h :
   Inv true s -> sget i (hb s) = Some h ->
   (o = TickTimeout -> now s <= h + timeout_ms) -> idle i o ->
   let s' := fst (step c true ah s o) in
   (exists h', sget i (hb s') = Some h' /\ (h' = h \/ h' = now s))
-  /\ (forall u, cond_of u i s' = cond_of u i s)
-  /\ (forall u, count_of u i s' = count_of u i s).
+  /\ (forall u, (o = TickUnknown -> str_mem u (lister s) = true) -> cond_of u i s' = cond_of u i s)
+  /\ (forall u, (o = TickUnknown -> str_mem u (lister s) = true) -> count_of u i s' = count_of u i s).
 Proof.
   intros [I1 [I2 I3]] Hi Hlive Hidle. specialize (I3 eq_refl).
-  destruct o as [j|u j q|u j n| | |dt]; simpl.
+  destruct o as [j|u j q|u j n| | |dt|u|u]; simpl.
   - (* Heartbeat j *)
     split; [|split; reflexivity].
     destruct (String.eqb_spec j i) as [->|Hne].
     + exists (now s). rewrite (alookup_aset_same String.eqb String.eqb_eq). split; [reflexivity|right; reflexivity].
     + exists h. rewrite (alookup_aset_other String.eqb String.eqb_eq); [|exact Hne]. split; [exact Hi|left; reflexivity].
   - (* Report u j q, j <> i *)
-    simpl in Hidle. destruct (negb (str_mem u (ups c))); simpl.
+    simpl in Hidle. destruct (sget u (sums s)); simpl.
+    2:{ split; [exists h; split; [exact Hi|left; reflexivity]|split; reflexivity]. }
+    destruct (String.eqb j "state"); simpl.
     { split; [exists h; split; [exact Hi|left; reflexivity]|split; reflexivity]. }
     split; [exists h; split; [exact Hi|left; reflexivity]|]. split; [|reflexivity].
-    intros u'. unfold cond_of; simpl. apply (alookup_aset_other key_eqb key_eqb_spec). congruence.
+    intros u' _. unfold cond_of; simpl. apply (alookup_aset_other key_eqb key_eqb_spec). congruence.
   - (* Acquire u j n, j <> i *)
     simpl in Hidle.
     assert (Hh : sget i (if ah then aset String.eqb j (now s) (hb s) else hb s) = Some h).
@@ -194,7 +214,7 @@ Proof.
     { split; [exists h; split; [exact Hh|left; reflexivity]|split; reflexivity]. }
     destruct (set_state (cmax c) f j n) as [f' acc] eqn:Es. simpl.
     split; [exists h; split; [exact Hh|left; reflexivity]|]. split; [reflexivity|].
-    intros u'. unfold count_of; simpl.
+    intros u' _. unfold count_of; simpl.
     destruct (String.eqb_spec u u') as [->|Hne].
     + rewrite (alookup_aset_same String.eqb String.eqb_eq), Ef.
       pose proof (set_state_other (cmax c) f j n i Hidle) as X. rewrite Es in X. exact X.
@@ -206,23 +226,46 @@ Proof.
     + exists h. split; [|left; reflexivity].
       rewrite (alookup_filter_nodup String.eqb String.eqb_eq); [|exact I1]. rewrite Hi. simpl.
       destruct (now s >? h + timeout_ms) eqn:E; [apply Z.gtb_lt in E; lia|reflexivity].
-    + intros u. unfold cond_of; simpl.
+    + intros u _. unfold cond_of; simpl.
       rewrite (alookup_filter_nodup key_eqb key_eqb_spec); [|exact I2].
       destruct (kget (u, i) (conds s)) as [[q lab]|] eqn:Ec; [|reflexivity].
       apply (alookup_In key_eqb key_eqb_spec) in Ec. rewrite (I3 _ _ _ _ Ec). simpl. rewrite Hnd. reflexivity.
-    + intros u. unfold count_of; simpl. rewrite count_drop_all. rewrite Hnd. reflexivity.
+    + intros u _. unfold count_of; simpl. rewrite count_drop_all. rewrite Hnd. reflexivity.
   - (* TickUnknown *)
     assert (Hk : str_mem i (map fst (hb s)) = true).
     { apply str_mem_In. eapply alookup_Some_in; [apply String.eqb_eq|exact Hi]. }
     split; [exists h; split; [exact Hi|left; reflexivity]|]. split.
-    + intros u. unfold cond_of; simpl.
+    + intros u Hu. specialize (Hu eq_refl). unfold cond_of; simpl.
       rewrite (alookup_filter_nodup key_eqb key_eqb_spec); [|exact I2].
-      destruct (kget (u, i) (conds s)) as [v|]; [|reflexivity]. simpl. rewrite Hk. reflexivity.
-    + intros u. unfold count_of; simpl. rewrite count_drop_all.
+      destruct (kget (u, i) (conds s)) as [v|]; [|reflexivity]. simpl. rewrite Hk. unfold orphan. rewrite Hu. reflexivity.
+    + intros u Hu. specialize (Hu eq_refl). unfold count_of; simpl. rewrite count_tu. unfold orphan at 1. rewrite Hu. simpl.
       match goal with |- (if str_mem i ?g then _ else _) = _ => destruct (str_mem i g) eqn:Eg end; [|reflexivity].
       apply str_mem_In in Eg. apply in_map_iff in Eg. destruct Eg as [[[u' i'] v] [E1 E2]]. simpl in E1; subst i'.
       apply filter_In in E2. destruct E2 as [_ E2]. simpl in E2. rewrite Hk in E2. discriminate.
   - split; [exists h; split; [exact Hi|left; reflexivity]|split; reflexivity].
+  - split; [exists h; split; [exact Hi|left; reflexivity]|split; reflexivity].
+  - (* ClusterSet *)
+    destruct (sget u (sums s)); simpl.
+    { split; [exists h; split; [exact Hi|left; reflexivity]|split; reflexivity]. }
+    split; [exists h; split; [exact Hi|left; reflexivity]|]. split; [reflexivity|].
+    intros u' _. unfold count_of; simpl. destruct (sget u (cnts s)) eqn:Ec; [reflexivity|].
+    destruct (String.eqb_spec u u') as [->|Hne].
+    + rewrite (alookup_aset_same String.eqb String.eqb_eq), Ec. reflexivity.
+    + rewrite (alookup_aset_other String.eqb String.eqb_eq); [reflexivity|exact Hne].
+Qed.
+
+Lemma lister_step c lf ah s o u :
+  str_mem u (lister s) = true -> o <> ClusterGone u -> str_mem u (lister (fst (step c lf ah s o))) = true.
+Proof.
+  intros Hu Ho. destruct o as [j|u' j q|u' j n| | |dt|u'|u']; simpl; try exact Hu.
+  - destruct (sget u' (sums s)); simpl; [|exact Hu]. destruct (String.eqb j "state"); simpl; exact Hu.
+  - destruct (sget u' (cnts s)); simpl; [|exact Hu]. destruct (n <? 0); simpl; [exact Hu|].
+    destruct (set_state (cmax c) _ j n). simpl. exact Hu.
+  - apply str_mem_In. apply filter_In. split; [apply str_mem_In; exact Hu|].
+    destruct (String.eqb_spec u u') as [->|Hne]; [exfalso; apply Ho; reflexivity|reflexivity].
+  - assert (X : str_mem u (if str_mem u' (lister s) then lister s else u' :: lister s) = true).
+    { destruct (str_mem u' (lister s)); [exact Hu|]. simpl. destruct (String.eqb u u'); [reflexivity|exact Hu]. }
+    destruct (sget u' (sums s)); simpl; exact X.
 Qed.
 
 (* over a whole history: at every timeout pass the instance's last heartbeat is at most 3 s old *)
@@ -233,21 +276,22 @@ Fixpoint live_along (c : cfg) (ah : bool) (i : string) (s : st) (ops : list op) 
               /\ live_along c ah i (fst (step c true ah s o)) r
   end.
 
-Lemma live_kept c ah i ops : forall s h,
+Lemma live_kept c ah i u ops : forall s h,
   Inv true s -> sget i (hb s) = Some h -> live_along c ah i s ops -> Forall (idle i) ops ->
+  str_mem u (lister s) = true -> Forall (fun o => o <> ClusterGone u) ops ->
   let s' := run_state c true ah s ops in
-  (exists h', sget i (hb s') = Some h')
-  /\ (forall u, cond_of u i s' = cond_of u i s) /\ (forall u, count_of u i s' = count_of u i s).
+  (exists h', sget i (hb s') = Some h') /\ cond_of u i s' = cond_of u i s /\ count_of u i s' = count_of u i s.
 Proof.
-  induction ops as [|o r IH]; intros s h HI Hi Hl Hid; simpl.
+  induction ops as [|o r IH]; intros s h HI Hi Hl Hid Hu Hg; simpl.
   - split; [exists h; exact Hi|split; reflexivity].
-  - simpl in Hl. destruct Hl as [Hl1 Hl2]. inversion Hid as [|? ? Ho Hr]; subst.
+  - simpl in Hl. destruct Hl as [Hl1 Hl2]. inversion Hid as [|? ? Ho Hr]; subst. inversion Hg as [|? ? Hgo Hgr]; subst.
     assert (Hlive : o = TickTimeout -> now s <= h + timeout_ms).
     { intros E. destruct (Hl1 E) as [h2 [E1 E2]]. rewrite Hi in E1; inversion E1; subst; exact E2. }
     pose proof (live_kept_step c ah s o i h HI Hi Hlive Ho) as [[h' [S1 _]] [S2 S3]].
     pose proof (Inv_step c true ah s o HI) as HI'.
-    destruct (IH _ h' HI' S1 Hl2 Hr) as [R1 [R2 R3]].
-    split; [exact R1|]. split; intros u; [rewrite R2; apply S2|rewrite R3; apply S3].
+    pose proof (lister_step c true ah s o u Hu Hgo) as Hu'.
+    destruct (IH _ h' HI' S1 Hl2 Hr Hu' Hgr) as [R1 [R2 R3]].
+    split; [exact R1|]. split; [rewrite R2; apply S2; intros _; exact Hu|rewrite R3; apply S3; intros _; exact Hu].
 Qed.
 
 (* ------------------------------------------------------------------ reclamation *)
@@ -263,9 +307,9 @@ Qed.
 
 Lemma CountCached_step c lf s o : Inv lf s -> CountCached s -> CountCached (fst (step c lf true s o)).
 Proof.
-  intros [I1 _] HC. destruct o as [j|u j q|u j n| | |dt]; simpl.
+  intros [I1 _] HC. destruct o as [j|u j q|u j n| | |dt|u|u]; simpl.
   - intros u i H. apply aset_keeps_some. apply (HC u i). exact H.
-  - destruct (negb (str_mem u (ups c))); simpl; exact HC.
+  - destruct (sget u (sums s)); simpl; [|exact HC]. destruct (String.eqb j "state"); simpl; exact HC.
   - destruct (sget u (cnts s)) as [f|] eqn:Ef; simpl.
     2:{ intros u' i H. apply aset_keeps_some. apply (HC u' i). exact H. }
     destruct (n <? 0); simpl.
@@ -287,9 +331,17 @@ Proof.
     assert (X : str_mem i (map fst (filter (fun p : string * Z => now s >? snd p + timeout_ms) (hb s))) = true).
     { apply dead_mem. exists h. split; [apply (alookup_In String.eqb String.eqb_eq); exact Eh|lia]. }
     congruence.
-  - intros u i H. unfold count_of in H; simpl in H. rewrite count_drop_all in H.
+  - intros u i H. unfold count_of in H; simpl in H. rewrite count_tu in H.
+    destruct (orphan s u); [congruence|].
     destruct (str_mem i _); [congruence|]. apply (HC u i). exact H.
   - exact HC.
+  - exact HC.
+  - destruct (sget u (sums s)); simpl; [exact HC|].
+    intros u' i H. apply (HC u' i). unfold count_of in *; simpl in H.
+    destruct (sget u (cnts s)) eqn:Ec; [exact H|].
+    destruct (String.eqb_spec u u') as [->|Hne].
+    + rewrite (alookup_aset_same String.eqb String.eqb_eq) in H. simpl in H. congruence.
+    + rewrite (alookup_aset_other String.eqb String.eqb_eq) in H; [exact H|exact Hne].
 Qed.
 
 Lemma count_of_init c u i : count_of u i (init c) = None.
@@ -355,9 +407,9 @@ Definition Forgotten (i : string) (s : st) : Prop :=
 
 Lemma quiet_forgotten c lf ah s o i : quiet i o -> Forgotten i s -> Forgotten i (fst (step c lf ah s o)).
 Proof.
-  intros Hq [F1 F2]. unfold quiet in Hq. unfold Forgotten. destruct o as [j|u j q|u j n| | |dt]; simpl in *.
+  intros Hq [F1 F2]. unfold quiet in Hq. unfold Forgotten. destruct o as [j|u j q|u j n| | |dt|u|u]; simpl in *.
   - split; [|exact F2]. rewrite (alookup_aset_other String.eqb String.eqb_eq); [exact F1|congruence].
-  - destruct (negb (str_mem u (ups c))); simpl; split; assumption.
+  - destruct (sget u (sums s)); simpl; [|split; assumption]. destruct (String.eqb j "state"); simpl; split; assumption.
   - assert (Hj : j <> i) by congruence.
     assert (Hh : sget i (if ah then aset String.eqb j (now s) (hb s) else hb s) = None).
     { destruct ah; [rewrite (alookup_aset_other String.eqb String.eqb_eq); assumption|exact F1]. }
@@ -371,20 +423,29 @@ Proof.
     + rewrite (alookup_aset_other String.eqb String.eqb_eq); [apply F2|exact Hu].
   - split; [apply (alookup_filter_None_pres String.eqb String.eqb_eq); exact F1|].
     intros u. unfold count_of; simpl. rewrite count_drop_all. destruct (str_mem i _); [reflexivity|apply F2].
-  - split; [exact F1|]. intros u. unfold count_of; simpl. rewrite count_drop_all. destruct (str_mem i _); [reflexivity|apply F2].
+  - split; [exact F1|]. intros u. unfold count_of; simpl. rewrite count_tu.
+    destruct (orphan s u); [reflexivity|]. destruct (str_mem i _); [reflexivity|apply F2].
   - split; assumption.
+  - split; assumption.
+  - destruct (sget u (sums s)); simpl; [split; assumption|]. split; [exact F1|].
+    intros u'. unfold count_of; simpl. destruct (sget u (cnts s)) eqn:Ec; [apply F2|].
+    destruct (String.eqb_spec u u') as [->|Hne].
+    + rewrite (alookup_aset_same String.eqb String.eqb_eq). reflexivity.
+    + rewrite (alookup_aset_other String.eqb String.eqb_eq); [apply F2|exact Hne].
 Qed.
 
 Lemma quiet_noconds c lf ah s o i : quiet i o -> (forall u, cond_of u i s = None) ->
   forall u, cond_of u i (fst (step c lf ah s o)) = None.
 Proof.
-  intros Hq F. unfold quiet in Hq. destruct o as [j|u j q|u j n| | |dt]; simpl in *; try exact F.
-  - destruct (negb (str_mem u (ups c))); simpl; [exact F|]. intros u'. unfold cond_of; simpl.
+  intros Hq F. unfold quiet in Hq. destruct o as [j|u j q|u j n| | |dt|u|u]; simpl in *; try exact F.
+  - destruct (sget u (sums s)); simpl; [|exact F]. destruct (String.eqb j "state"); simpl; [exact F|].
+    intros u'. unfold cond_of; simpl.
     rewrite (alookup_aset_other key_eqb key_eqb_spec); [apply F|congruence].
   - destruct (sget u (cnts s)) as [f|]; simpl; [|exact F]. destruct (n <? 0); simpl; [exact F|].
     destruct (set_state (cmax c) f j n) as [f' acc]. simpl. exact F.
   - intros u. unfold cond_of; simpl. apply (alookup_filter_None_pres key_eqb key_eqb_spec). apply F.
   - intros u. unfold cond_of; simpl. apply (alookup_filter_None_pres key_eqb key_eqb_spec). apply F.
+  - destruct (sget u (sums s)); simpl; exact F.
 Qed.
 
 Lemma quiet_run_forgotten c lf ah i ops : forall s, Forall (quiet i) ops -> Forgotten i s -> Forgotten i (run_state c lf ah s ops).
@@ -425,14 +486,15 @@ Proof.
 Qed.
 
 (* ------------------------------------------------------------------ capacity *)
-Lemma capacity_returns c lf ah s u j q : str_mem u (ups c) = true ->
+Lemma capacity_returns c lf ah s u j q : sget u (sums s) <> None ->
   let s' := fst (step c lf ah s (Report u j q)) in
   sget u (sums s') = Some (sum_quota u (conds s'))
   /\ (forall u' i, (u', i) <> (u, j) -> cond_of u' i s' = cond_of u' i s).
 Proof.
-  intros Hu. simpl. rewrite Hu. simpl. split.
-  - apply (alookup_aset_same String.eqb String.eqb_eq).
-  - intros u' i Hne. unfold cond_of; simpl. apply (alookup_aset_other key_eqb key_eqb_spec). congruence.
+  intros Hu. simpl. destruct (sget u (sums s)); [|congruence]. destruct (String.eqb j "state"); simpl.
+  - split; [apply (alookup_aset_same String.eqb String.eqb_eq)|reflexivity].
+  - split; [apply (alookup_aset_same String.eqb String.eqb_eq)|].
+    intros u' i Hne. unfold cond_of; simpl. apply (alookup_aset_other key_eqb key_eqb_spec). congruence.
 Qed.
 
 (* the recorded sum counts nothing for an instance that has no condition *)
@@ -471,3 +533,18 @@ Lemma reclaimed_refuted :
   sget "g1" (hb s) = None /\ count_of "a" "g1" s = Some 5
   /\ snd (step cfg0 true false s (Acquire "a" "g2" 6)) = RAcc false.
 Proof. vm_compute. repeat split; reflexivity. Qed.
+
+(* ------------------------------------------------------------------ upstream removal by the unknown-condition pass *)
+(* an upstream that left the lister and has a condition (its state condition included) of an instance
+   outside the cache is deleted as a whole: conditions, recorded sum, counted in-flight *)
+Lemma orphan_removed c lf ah s u : orphan s u = true ->
+  let s' := fst (step c lf ah s TickUnknown) in
+  (forall i, cond_of u i s' = None) /\ sget u (sums s') = None /\ (forall i, count_of u i s' = None).
+Proof.
+  intros Ho. simpl. split; [|split].
+  - intros i. unfold cond_of; simpl. apply (alookup_filter_none key_eqb key_eqb_spec).
+    intros v _. simpl. rewrite Ho. simpl. apply Bool.andb_false_r.
+  - pose proof (alookup_filter String.eqb String.eqb_eq (fun x => negb (orphan s x)) u (sums s) (V:=Z)) as HF.
+    cbv beta in HF. rewrite HF, Ho. reflexivity.
+  - intros i. unfold count_of; simpl. rewrite count_tu, Ho. reflexivity.
+Qed.
